@@ -14,6 +14,7 @@ import Proofs.DdsQuote
 import Proofs.DdsPrintable
 import Proofs.DdsFuel
 import Proofs.DdsExact
+import Proofs.DdsDimWitness
 namespace Pydap.C07
 open Pydap Pydap.Dds
 
@@ -23,6 +24,16 @@ open Pydap Pydap.Dds
 theorem C07_parse_print (d : Dataset) (s : Text) (hwf : WFds d) (hp : printDs d = .ok s) :
     parseDds s = .ok (normDs d) :=
   parse_print d s hp hwf
+
+/-- The dimension-name hypothesis of `C07_parse_print` cannot be dropped: dimension names are printed verbatim
+    (never quoted), and one outside `name_regexp` — the NetCDF handler's fully-qualified `/y`, DESIGN §9 #20 —
+    gives a DDS that pydap's own parser rejects.  Outside C07's domain (names exclude `/`); recorded under C20. -/
+theorem C07_unquoted_dimension_refuted :
+    ¬ (∀ (d : Dataset) (s : Text), printDs d = .ok s → ∃ d', parseDds s = .ok d') := by
+  intro h
+  obtain ⟨d', hd⟩ := h slashDimWitness _ slashDimWitness_prints
+  rw [slashDimWitness_does_not_parse] at hd
+  cases hd
 
 /-- The hypothesis `printDs d = .ok s` of `C07_parse_print` is not a restriction beyond the type table: the
     printer succeeds on every tree whose dtypes have an entry in `NUMPY_TO_DAP2_TYPEMAP` (every DAP2 type) and
